@@ -73,12 +73,59 @@ CHECKS = {
              "strata and an entry-point matrix compared with the model and judged by the property's own oracle.",
         ref="§4 C10", technique="Lean 4 proof (case analysis of an executable model with Python's exception classes) + exhaustive/seeded correspondence",
         note=NOTE + "Amount/unit/key classes are abstracted by the harness (classification trusted); non-ASCII strings judged by the oracle only; bool/complex/Decimal amounts not judged."),
+    "C08": dict(
+        text="Refinement theorems (abs_add/sub/mul/div/remove, sort_sorted, addDictionaries_spec, refusals, "
+             "no_amount_discarded) proved for every inventory over any amount type with the needed algebra: results are the "
+             "nuclide-wise sum/difference/multiple/quotient/restriction, alphabetically sorted, same class and dataset; tied to the "
+             "code by mirroring seeded operation histories into the Lean state machine and comparing every live inventory after "
+             "every step bit-for-bit (IEEE double via Lean Float) or as exact rationals (high-precision class).",
+        ref="§4 C08", technique="Lean 4 refinement proof (sorted association list -> finitely supported map) + bit-exact correspondence of operation histories",
+        note=NOTE + "Lean Float = IEEE binary64 assumed; unit conversion of arguments taken from the real constructor (C05)."),
+    "C11": dict(
+        text="State-machine theorems for every world, operation and history: templates_invariant, readers_frame, mutators_frame, "
+             "failure_atomic, history_independent; tied to the code by histories interleaving mutators, operators and every kind "
+             "of reader with fingerprints of every live object and of the dataset after every step, probes against a fresh "
+             "interpreter, and reload equality.",
+        ref="§4 C11", technique="Lean 4 proof (invariants of an executable state machine, induction over histories) + fingerprinted histories",
+        note=NOTE + "That real readers only copy templates is observed, not proved; one dataset, single thread."),
+    "C12": dict(
+        text="Precedence (row unit > argument > 'Bq'), empty-cell fall-back, malformed-row refusal, skip_exact, row-level export/"
+             "import round trip and agreement of the export and constructor unit chains proved/decided on the generated tables; "
+             "real files for 44 units x delimiters x encodings x flags compared row by row and after re-reading.",
+        ref="§4 C12", technique="Lean 4 proof (decision logic) + decide on generated tables + real-file correspondence",
+        note=NOTE + "csv/io/codecs and float(str(x)) round trip are CPython's."),
+    "C13": dict(
+        text="dispatch_table decided for all 47 read-out strings in both modes and both duplicated chains, unknown strings refused, "
+             "exact linear grid, axis start and limit rules proved; real series / frames / captured plot arguments compared "
+             "point by point with separate decay calls for every kind, scale and method.",
+        ref="§4 C13", technique="Lean 4 proof + decide on generated tables + exhaustive correspondence over read-out kinds",
+        note=NOTE + "Point-wise equality per input; NumPy grids to 2 ulp; Matplotlib rendering not modelled."),
     "C14": dict(
         text="frac_def, frac_sum_one, frac_in_unit_interval, frac_scale_invariant proved over the rationals for all lists; real "
              "fractions of both classes compared with the model's exact quotient of the actual read-outs ((n+4) ulp), scale/unit "
              "invariance and class agreement on generated inventories.",
         ref="§4 C14", technique="Lean 4 proof (ordered-field algebra) + correspondence",
         note=NOTE + "Float rounding per input."),
+    "C15": dict(
+        text="lookup_listed / lookup_nonmember proved for every duplicate-free progeny list (linear search), half_life_conv, and "
+             "kernel-decided readable_denotes_same + listed_data_ok for every nuclide of the regenerated dataset; all nuclides x "
+             "units x three interfaces and all links / in-chain non-links compared with the model.",
+        ref="§4 C15", technique="Lean 4 proof (induction on the linear search) + kernel decision on regenerated data + exhaustive correspondence",
+        note=NOTE + "Float half-life conversion to 4 ulp."),
+    "C16": dict(
+        text="For the shipped dataset the kernel decides, for every root, that the queue-based builder model equals an independent "
+             "specification (reachability, layered minimum distance, SF nodes, one edge per link, distinct names and positions); "
+             "the real builder is compared with the model and with an independent reading for all 1512 roots, labels included. "
+             "The for-all-datasets invariants are not proved (partial).",
+        ref="§4 C16", technique="Lean 4 kernel decision for all roots of the regenerated dataset + exhaustive correspondence",
+        note=NOTE + "Shipped dataset only; networkx/Matplotlib not modelled."),
+    "C17": dict(
+        text="eq_refl/symm/trans, ne_is_not_eq, eq_iff_same, nuclide_eq_iff, hash_respects_eq, foreign_type_false, cross_kind_false "
+             "proved for the equality model; all ordered pairs of a pool of nuclides, inventories (both classes, many numeric "
+             "types), datasets and foreign objects compared with the model before and after calculations. Cross-class "
+             "inventory equality is not transitive on the shipped code (open known finding F7).",
+        ref="§4 C17", technique="Lean 4 proof (equivalence relation on an executable equality model) + exhaustive pairwise correspondence",
+        note=NOTE + "Dataset identity classes assigned by the harness."),
 }
 
 PENDING = {}
